@@ -4,14 +4,15 @@ set -u
 W="$1"
 cd "$W" || exit 2
 export CARGO_NET_OFFLINE=true
+LW=$(mktemp); LO=$(mktemp)
 DEMO=$(python3 -c "import json;print(json.load(open('SEED/meta.json'))['demo_cmd'])")
 git diff --quiet && { echo "worktree has no change applied"; git apply SEED/patch.diff || exit 2; }
 echo "== suite with patch"; cargo test --workspace --offline 2>&1 | grep "test result" | awk '{p+=$4; f+=$6} END {print "passed",p,"failed",f}'
-echo "== demo with patch (expect failure)"; bash -c "$DEMO" > /tmp/seed_demo_with.log 2>&1; echo "rc=$?"; grep -E "test result" /tmp/seed_demo_with.log | head -3; echo "  FAILED/panicked/error lines: $(grep -cE "FAILED|panicked|^error" /tmp/seed_demo_with.log)"
-git stash -q -- $(git diff --name-only) 2>/dev/null || git apply -R SEED/patch.diff
-echo "== demo without patch (expect success)"; bash -c "$DEMO" > /tmp/seed_demo_without.log 2>&1; echo "rc=$?"; grep -E "test result" /tmp/seed_demo_without.log | head -5
-git stash pop -q 2>/dev/null || git apply SEED/patch.diff
+echo "== demo with patch (expect failure)"; bash -c "$DEMO" > $LW 2>&1; echo "rc=$?"; grep -E "test result" $LW | head -3; echo "  FAILED/panicked/error lines: $(grep -cE "FAILED|panicked|^error" $LW)"
+git apply -R SEED/patch.diff   # (never git stash: the stash is shared by all worktrees of a repository)
+echo "== demo without patch (expect success)"; bash -c "$DEMO" > $LO 2>&1; echo "rc=$?"; grep -E "test result" $LO | head -5
+git apply SEED/patch.diff
 # remove the copied demo file(s)
 git status --short | grep '^??' | grep -v SEED | awk '{print $2}' | grep -E "demo|seed_" | xargs -r rm -f
 git diff --stat | tail -1
-rm -f /tmp/seed_demo_with.log /tmp/seed_demo_without.log
+rm -f $LW $LO
